@@ -58,6 +58,10 @@ ENDINGS['hard_act'] = ('HARD_ERROR', 'act')
 ENDINGS['hard_before-assert'] = ('HARD_ERROR', 'before-assert')
 ENDINGS['hard_assert'] = ('HARD_ERROR', 'assert')
 ENDINGS['hard_cleanup'] = ('HARD_ERROR', 'cleanup')
+# a program that exists and is executable but that the OS refuses to start (a script without #! line: ENOEXEC)
+ENDINGS['hard_unrunnable_setup'] = ('HARD_ERROR', 'setup')
+ENDINGS['hard_unrunnable_act'] = ('HARD_ERROR', 'act')
+ENDINGS['hard_unrunnable_cleanup'] = ('HARD_ERROR', 'cleanup')
 ENDINGS['include_missing'] = ('FILE_ACCESS_ERROR', 'setup')
 ENDINGS['pre_false'] = ('PRE_PROCESS_ERROR', None)
 ENDINGS['pre_nonexec'] = ('PRE_PROCESS_ERROR', None)
@@ -106,6 +110,10 @@ def build(case):
         ph['conf'].append('home = nodir')
     elif ending in ('hard_setup', 'hard_before-assert', 'hard_cleanup'):
         ph[phase].append('$ exit 3')
+    elif ending in ('hard_unrunnable_setup', 'hard_unrunnable_cleanup'):
+        ph[phase].append('run no-interpreter-line.txt')
+    elif ending == 'hard_unrunnable_act':
+        ph['act'] = ['no-interpreter-line.txt']
     elif ending == 'hard_assert':
         ph['assert'].append('contents missing-file : is-empty')
     elif ending == 'hard_act':
@@ -200,6 +208,7 @@ def check(case) -> Verdict:
     with driver.Workspace() as ws:
         ws.write('t.case', text)
         ws.write('pp-signal.sh', PP_SIGNAL)
+        os.chmod(ws.write('no-interpreter-line.txt', 'echo this file has no interpreter line\n'), 0o755)
         ws.probe_cfg('act', exit=case['code'], stdout=case['out'], stderr=case['err'])
         r = driver.run_inproc(ws, [ws.subst(a) for a in argv])
         sandboxes = r.sandboxes
@@ -383,6 +392,7 @@ def check_subprocess(case) -> Verdict:
         with driver.Workspace() as ws:
             ws.write('t.case', text)
             ws.write('pp-signal.sh', PP_SIGNAL)
+            os.chmod(ws.write('no-interpreter-line.txt', 'echo this file has no interpreter line\n'), 0o755)
             argv_here = [ws.subst(a) for a in argv]
             ws.probe_cfg('act', exit=case['code'], stdout=case['out'], stderr=case['err'])
             r = driver.run_inproc(ws, argv_here) if how == 'inproc' else driver.run_subproc(ws, argv_here)
